@@ -593,6 +593,15 @@ func VerifyLinkSignatureThesholds(layout Layout,
 					continue
 				}
 
+				// The link is counted under signerKeyID, so the certificate
+				// must belong to exactly that key. Otherwise one functionary
+				// could be counted several times, by offering copies of its
+				// link under made-up key ids that carry its certificate.
+				if cert.KeyID != signerKeyID {
+					stepErr = fmt.Errorf("certificate does not belong to key '%s'", signerKeyID)
+					continue
+				}
+
 				// test certificate against the step's constraints to make sure it's a valid functionary
 				err = step.CheckCertConstraints(cert, layout.RootCAIDs(), rootCertPool, intermediateCertPool)
 				if err != nil {
